@@ -130,6 +130,12 @@ fn combo<C: Combo + ToU64>(sink: &mut Sink, rng: &mut Rng, thorough: bool) {
       sink.emit(&format!("u_gen {} {} {}", q, d, i), &u.to_u64().to_string(), true);
       let (dd, ii) = <C::Q as MocQty<C::T>>::from_uniq_gen(u);
       sink.emit(&format!("u_fromgen {} {}", q, u.to_u64()), &format!("{}/{}", dd, ii.to_u64()), true);
+      // generic uniq -> index range (must be the range of that cell, for every quantity)
+      let ans = guarded(AssertUnwindSafe(|| {
+        let r = <C::Q as MocQty<C::T>>::uniq_gen_to_range(u);
+        fmt_ranges(&[r.start.to_u64()..r.end.to_u64()])
+      }));
+      sink.emit(&format!("u_genrange {} {} {}", q, w, u.to_u64()), &ans, true);
       let z = <C::Q as MocQty<C::T>>::to_zuniq(d, ti);
       sink.emit(&format!("u_z {} {} {} {}", q, w, d, i), &z.to_u64().to_string(), true);
       let (dd, ii) = <C::Q as MocQty<C::T>>::from_zuniq(z);
